@@ -125,6 +125,31 @@ SEEDS = {
  "c18-index-tables-rebuilt-backwards": dict(property="C18", file="src/assemblyline.c asm_build_index_tables",
     change="tables filled walking backwards, storing every row: entries are transiently wrong while any thread creates an instance",
     needs="one thread in asm_create_instance while another assembles on its own instance", demo="demo.c run.sh"),
+ # ---- third round (8 properties; told about both earlier sites) ----
+ "c06-disp32-pad-byte-not-stored": dict(property="C06", file="src/assembler.c assemble_mem_const",
+    change="zero padding of the 4-byte displacement rewritten as a count-down loop with '>' instead of '>=': one pad byte is never stored",
+    needs="disp32 / absolute address with a non-negative value below 0x1000000 AND a non-zero byte already in the buffer at that position", demo="demo.c run.sh"),
+ "c09-bare-keyword-null-deref": dict(property="C09", file="src/reg_parser.c get_operand_type (+ unchanged imm_tok)",
+    change="tail of get_operand_type 'simplified': the terminating NUL is now typed as an immediate; imm_tok then dereferences strtok_r's NULL",
+    needs="an operand that is only a size/distance keyword (push byte, jmp short, mov rax, qword)", demo="demo.c demo.sh run.sh"),
+ "c10-vex-three-opd-rsp-index-accepted": dict(property="C10", file="src/encoder.c encode_three_opds",
+    change="now calls encode_two_opds and ignores its result: get_reg's rejection of the stack pointer as scaled index is lost for RVM/RMV forms",
+    needs="three-operand VEX/BMI form whose memory operand has rsp/esp as scaled index or as base and index", demo="demo.c demo.sh run.sh"),
+ "c13-multi-nop-pointer-not-advanced": dict(property="C13", file="src/assembler.c nop_padding",
+    change="*ptr++ = b became *(ptr + i) = b: the second NOP of a gap overwrites the first, the tail of the gap keeps stale bytes",
+    needs="padding gap of 12 bytes or more (chunk >= 14, instruction of 13+ bytes)", demo="demo.sh"),
+ "c14-multi-boundary-counted-twice": dict(property="C14", file="src/parser.c assemble_counting_chunks",
+    change="count += last_chunk - first_chunk instead of +1 when the instruction does not fit",
+    needs="an instruction spanning three or more chunks (length >= c+2, so c <= 13)", demo="demo.c run.sh"),
+ "c16-label-blank-after-colon": dict(property="C16", file="src/parser.c str_to_instr",
+    change="label test 'contains a colon' became 'ends with a colon' (the filter keeps the first blank after the first word)",
+    needs="label line with a blank directly after the colon", demo="demo.sh"),
+ "c19-binfile-no-truncate": dict(property="C19", file="src/assemblyline.c asm_create_bin_file",
+    change="fopen(\"wb\")/fwrite/fclose rewritten with open/write/close without O_TRUNC",
+    needs="target file that already holds more bytes than the code", demo="demo.c demo.sh run.sh"),
+ "c20-stdin-failure-exit-status-with-P": dict(property="C20", file="tools/asmline.c main",
+    change="stdin loop records the failure in a status variable instead of exit(); the -P/-o path returns create_binary_file's result",
+    needs="stdin source, a rejected line, and -P or -o", demo="demo.sh"),
 }
 CONFIRMED = ("applied in a scratch worktree of /repo: builds, `make check -j1` gives the same 96 PASS set as the unchanged tree; "
              "the demonstration fails with the change and passes without it")
